@@ -246,7 +246,7 @@ def history_to_plan(lines):
             if len(stream) < need:
                 stream += [0] * (need - len(stream))
             stream[pos:need] = src
-            calls.append([need, e['cap'], e['last']])
+            calls.append([need, -1 if e.get('q') else e['cap'], e['last']])
             prelen = len(e.get('pre', []))
             if e['res'] != 'P':
                 pos += e['read']
@@ -265,7 +265,7 @@ def history_to_plan(lines):
             if len(units) < need:
                 units += [0] * (need - len(units))
             units[pos:need] = src
-            ends.append([need, e['cap'], e['last']])
+            ends.append([need, -1 if e.get('q') else e['cap'], e['last']])
             prelen = len(e.get('pre', []))
             if e['res'] != 'P':
                 pos += e['read']
